@@ -949,8 +949,9 @@ class Object(ObjectAliasMixin):
                 return self.members[name].target_path  # type: ignore[union-attr]
             return self.members[name].path
 
-        # Name unknown and no more parent scope, could be a built-in.
-        if self.parent is None:
+        # Name unknown and no more parent scope (a module's parent package
+        # is not part of its scope), could be a built-in.
+        if self.parent is None or self.is_module:
             raise NameResolutionError(f"{name} could not be resolved in the scope of {self.path}")
 
         # Name is parent, non-module object.
